@@ -267,4 +267,7 @@ def check(run):
     _p07.peer_gone_rule(run)
     run.clause('stop() refuses the clients still waiting in the listen queue: acceptor::close(ec) drains the accept queue, after the socket is closed (shared with C07/C11)')
     _p07.accept_queue_drained_rule(run)
+    run.clause('a request reaches the handler registered for its path: the handler tables are looked up by the NORMALISED path, so the shape of the normaliser is part of this property (rules shared with C15: only complete ".." segments are detours, the last segment is always kept)')
+    import p15 as _p15
+    _p15.normalize_shape_rules(run)
     run.floor('R4', 4)
